@@ -149,12 +149,12 @@ def _poly2(case, rec):
 
 def clauses():
     return [
-        Clause("spheropolyhedron", _case3(), _poly3, quick=600, thorough=15000, rule="ConvexSpheropolyhedron + ConvexPolyhedron descriptors",
+        Clause("spheropolyhedron", _case3(), _poly3, quick=2400, thorough=15000, rule="ConvexSpheropolyhedron + ConvexPolyhedron descriptors",
                floors={"r>0": 0.6, "r=0": 0.03, "nontriangular": 0.25}),
-        Clause("spheropolygon", _case2(), _poly2, quick=800, thorough=20000, rule="ConvexSpheropolygon",
+        Clause("spheropolygon", _case2(), _poly2, quick=3200, thorough=20000, rule="ConvexSpheropolygon",
                floors={"r>0": 0.6, "r=0": 0.03, "tilted": 0.3}),
-        Clause("spheropolyhedron_extreme_scale", _case3(8.0), _poly3, quick=300, thorough=6000, rule="same with uniform scale 10^U(-8,8)", floors={}),
-        Clause("spheropolygon_extreme_scale", _case2(8.0), _poly2, quick=400, thorough=8000, rule="same with uniform scale 10^U(-8,6)", floors={}),
+        Clause("spheropolyhedron_extreme_scale", _case3(8.0), _poly3, quick=1200, thorough=6000, rule="same with uniform scale 10^U(-8,8)", floors={}),
+        Clause("spheropolygon_extreme_scale", _case2(8.0), _poly2, quick=1600, thorough=8000, rule="same with uniform scale 10^U(-8,6)", floors={}),
     ]
 
 
